@@ -5,6 +5,7 @@ import (
 	"errors"
 	"fmt"
 	"math/rand"
+	"strings"
 
 	"github.com/Query-farm/vgi-rpc-go/vgirpc"
 	"github.com/apache/arrow-go/v18/arrow"
@@ -12,11 +13,11 @@ import (
 
 // C05 — error envelopes carry a stable cross-language error type.
 type c05Err struct {
-	Ctor   string   `json:"ctor"` // rpc|notimpl|notimpl_msg|protover|sessionlost|draining|extcap|plain|custom|wrap
-	A      string   `json:"a,omitempty"`
-	B      string   `json:"b,omitempty"`
-	C      string   `json:"c,omitempty"`
-	Inner  *c05Err  `json:"inner,omitempty"`
+	Ctor  string  `json:"ctor"` // rpc|notimpl|notimpl_msg|protover|sessionlost|draining|extcap|plain|custom|wrap
+	A     string  `json:"a,omitempty"`
+	B     string  `json:"b,omitempty"`
+	C     string  `json:"c,omitempty"`
+	Inner *c05Err `json:"inner,omitempty"`
 }
 
 type c05In struct {
@@ -145,6 +146,13 @@ func c05Gen(r *rand.Rand, n int, tier string) []c05In {
 			out = append(out, c05In{Path: p, Debug: len(out)%2 == 0, Panic: pv})
 		}
 	}
+	// errors the framework raises itself, before any user code: the envelope rules (and the debug switch) hold
+	// for them as well; the error value is read back from the wire (its prose is not modelled)
+	for _, fw := range c05Framework {
+		for _, dbg := range []bool{false, true} {
+			out = append(out, c05In{Path: fw, Debug: dbg})
+		}
+	}
 	for len(out) < n {
 		p := c05Paths[r.Intn(len(c05Paths))]
 		in := c05In{Path: p, Debug: r.Intn(2) == 0}
@@ -168,6 +176,57 @@ func c05Gen(r *rand.Rand, n int, tier string) []c05In {
 	return out
 }
 
+var c05Framework = []string{"fw_pipe_gate_unary", "fw_pipe_gate_absent", "fw_pipe_gate_stream", "fw_http_gate_unary", "fw_http_gate_init",
+	"fw_pipe_unknown", "fw_http_unknown", "fw_pipe_badparams", "fw_http_badparams", "fw_pipe_stream_badparams", "fw_http_init_badparams"}
+
+// c05RunFramework provokes an error raised by the server itself and reads the error value back from the wire.
+func c05RunFramework(in c05In) []byte {
+	sf := newSurface()
+	defer sf.Close()
+	s := NewScriptedServer(sf)
+	s.SetDebugErrors(in.Debug)
+	hs := func() *vgirpc.HttpServer { return vgirpc.NewHttpServer(s) }
+	tick := InputBytes(arrow.NewSchema(nil, nil), []InputItem{{Kind: "tick"}})
+	withPV := func(m [][2]string, v string) [][2]string { return append(m, [2]string{vgirpc.MetaProtocolVersion, v}) }
+	wrong := int64Batch(arrow.NewSchema([]arrow.Field{{Name: "y", Type: arrow.PrimitiveTypes.Int64}}, nil), []int64{5}) // column y where the methods declare x
+	switch in.Path {
+	case "fw_pipe_gate_unary":
+		s.SetProtocolVersion("2.10.3")
+		b, _ := RunPipe(s, ReqBytes(PIntBatch(1), withPV(StdMeta("u_int", "rid", ""), "3.0.0")))
+		return b
+	case "fw_pipe_gate_absent":
+		s.SetProtocolVersion("2.10.3")
+		b, _ := RunPipe(s, ReqBytes(PIntBatch(1), StdMeta("u_int", "rid", "")))
+		return b
+	case "fw_pipe_gate_stream":
+		s.SetProtocolVersion("2.10.3")
+		b, _ := RunPipe(s, append(ReqBytes(PIntBatch(1), withPV(StdMeta("prod", "rid", ""), "2.9.0")), tick...))
+		return b
+	case "fw_http_gate_unary":
+		s.SetProtocolVersion("2.10.3")
+		return DoHTTP(hs(), "POST", "/u_int", ReqBytes(PIntBatch(1), withPV(StdMeta("u_int", "rid", ""), "1.2.03")), nil).Body
+	case "fw_http_gate_init":
+		s.SetProtocolVersion("2.10.3")
+		return DoHTTP(hs(), "POST", "/exch/init", ReqBytes(PIntBatch(1), StdMeta("exch", "rid", "")), nil).Body
+	case "fw_pipe_unknown":
+		b, _ := RunPipe(s, ReqBytes(PIntBatch(1), StdMeta("no_such_method", "rid", "")))
+		return b
+	case "fw_http_unknown":
+		return DoHTTP(hs(), "POST", "/no_such_method", ReqBytes(PIntBatch(1), StdMeta("no_such_method", "rid", "")), nil).Body
+	case "fw_pipe_badparams":
+		b, _ := RunPipe(s, ReqBytes(wrong, StdMeta("u_int", "rid", "")))
+		return b
+	case "fw_http_badparams":
+		return DoHTTP(hs(), "POST", "/u_int", ReqBytes(wrong, StdMeta("u_int", "rid", "")), nil).Body
+	case "fw_pipe_stream_badparams":
+		b, _ := RunPipe(s, append(ReqBytes(wrong, StdMeta("prod", "rid", "")), tick...))
+		return b
+	case "fw_http_init_badparams":
+		return DoHTTP(hs(), "POST", "/prod/init", ReqBytes(wrong, StdMeta("prod", "rid", "")), nil).Body
+	}
+	return nil
+}
+
 func c05Run(in c05In) CaseOut {
 	type obsT struct {
 		NExc                    int
@@ -178,7 +237,10 @@ func c05Run(in c05In) CaseOut {
 	tags := []string{in.Path}
 	var src string
 	var spec *ErrSpec
-	if in.Panic != "" {
+	isFw := strings.HasPrefix(in.Path, "fw_")
+	if isFw {
+		tags = append(tags, "framework-raised")
+	} else if in.Panic != "" {
 		shown := ""
 		switch {
 		case in.Panic == "int":
@@ -208,6 +270,9 @@ func c05Run(in c05In) CaseOut {
 		tick := InputBytes(arrow.NewSchema(nil, nil), []InputItem{{Kind: "tick"}, {Kind: "tick"}})
 		data := InputBytes(inSchemaX, []InputItem{{Kind: "data", Vals: []int64{1}}, {Kind: "data", Vals: []int64{2}}})
 		errTurn := []TurnScript{{Act: "emit", Value: 1}, {Act: "err", Err: spec}}
+		if isFw {
+			body = c05RunFramework(in)
+		}
 		switch in.Path {
 		case "pipe_unary":
 			sf.PushUnary(CallScript{Err: spec})
@@ -262,11 +327,24 @@ func c05Run(in c05In) CaseOut {
 			}
 		}
 	}
+	if isFw {
+		// the error value as the wire shows it; the gate paths insist on the typed ProtocolVersionError
+		if strings.Contains(in.Path, "_gate_") {
+			src = App("C05.Returned", App("C05.GProtoVer", B(o.Msg)))
+		} else if strings.Contains(in.Path, "_unknown") {
+			src = App("C05.Returned", App("C05.GNotImplMsg", B(o.Msg)))
+		} else {
+			src = App("C05.Returned", App("C05.GRpc", B(o.Type), B(strings.TrimPrefix(o.Msg, o.Type+": ")), B(o.Kind)))
+		}
+	}
 	if in.Debug {
 		tags = append(tags, "debug")
 	}
 	pathCoq := map[string]string{"direct": "C05.Direct", "pipe_unary": "C05.PipeUnary", "http_unary": "C05.HttpUnary", "pipe_init": "C05.PipeInit",
 		"http_init": "C05.HttpInit", "pipe_produce": "C05.PipeProduce", "pipe_exchange": "C05.PipeExchange", "http_exchange": "C05.HttpExchange", "http_produce": "C05.HttpProduce"}[in.Path]
+	if isFw {
+		pathCoq = "C05.Framework"
+	}
 	coqIn := App("C05.Build_input", pathCoq, Bool(in.Debug), src)
 	coqObs := App("C05.Build_obs", N(uint64(o.NExc)), B(o.Type), B(o.Msg), B(o.LogMsg), B(o.Kind), Bool(o.TB), Bool(o.Frames))
 	return CaseOut{Coq: Pair(coqIn, coqObs), Tags: tags, Nontrivial: true, Obs: o}
